@@ -184,8 +184,13 @@ func (c *classifier) newCtx(rs *ast.RangeStmt, ordered bool) *loopCtx {
 		return nil
 	}
 	if ordered {
-		// elements of the collected slice play the role of the entry
-		ctx.key, ctx.val = ctx.val, nil
+		// elements of the collected slice play the role of the entry; ranging over an iterator
+		// (`for k := range maps.Keys(m)`) yields them in the first variable
+		if _, isIter := c.info().TypeOf(rs.X).Underlying().(*types.Signature); isIter && rs.Value == nil {
+			ctx.val = nil
+		} else {
+			ctx.key, ctx.val = ctx.val, nil
+		}
 	}
 	return ctx
 }
@@ -1374,7 +1379,48 @@ func (c *classifier) typeOfTarget(body *ast.BlockStmt, target string) types.Type
 }
 
 // classifyLeakCall: `call` returns map contents in iteration order.
+func (c *classifier) stdCallee(e ast.Node) (pkg, name string, call *ast.CallExpr) {
+	call, ok := e.(*ast.CallExpr)
+	if !ok {
+		return "", "", nil
+	}
+	obj, _ := c.calleeObj(call)
+	f, _ := obj.(*types.Func)
+	if f == nil || f.Pkg() == nil {
+		return "", "", call
+	}
+	return f.Pkg().Path(), f.Name(), call
+}
+
 func (c *classifier) classifyLeakCall(call *ast.CallExpr) effects {
+	// Go 1.23 iterator idioms: the leaked sequence is materialised by a wrapper call
+	//   slices.Sorted(maps.Keys(m))            sorted at once: collect-then-sort on the elements
+	//   slices.SortedFunc(maps.Keys(m), cmp)   the same, if the comparator orders the elements
+	//   slices.Collect(maps.Keys(m))           just the collected slice: look at what follows
+	for {
+		pkg, name, outer := c.stdCallee(c.parents[call])
+		if outer == nil || len(outer.Args) == 0 || unparen(outer.Args[0]) != ast.Expr(call) || pkg != "slices" {
+			break
+		}
+		switch name {
+		case "Sorted":
+			return effects{{tag: "collectThenSort", detail: "slices.Sorted of the sequence: a total order on the collected elements"}}
+		case "SortedFunc", "SortedStableFunc":
+			order := c.sortOrder(outer, outer.Args[0], nil)
+			switch {
+			case order == "direct":
+				return effects{{tag: "collectThenSort", detail: "slices." + name + " with a total order on the collected elements"}}
+			case strings.HasPrefix(order, "field:"):
+				k := strings.TrimPrefix(order, "field:")
+				return effects{{tag: "collectThenSort", detail: "slices." + name + " comparing only " + k, sortKey: types.ExprString(call) + " by " + k}}
+			}
+			return effects{{tag: "collectThenSortByDerivedKey", detail: "slices." + name + ": " + strings.TrimPrefix(order, "derived:")}}
+		case "Collect":
+			call = outer
+			continue
+		}
+		break
+	}
 	// inside an error message?
 	var stmt ast.Stmt
 	var child ast.Node = call
